@@ -399,6 +399,10 @@ where
         let document = Document::new(doc_id, last_updated, data);
 
         let keyspace = self.group.get_or_create_keyspace(keyspace).await;
+        #[cfg(datacake_verif)]
+        if let Some(delay) = datacake_crdt::verif::jitter_for("store.before_local_apply") {
+            tokio::time::sleep(delay).await;
+        }
         let msg = Set {
             source: CONSISTENCY_SOURCE_ID,
             doc: document.clone(),
@@ -464,6 +468,10 @@ where
             .collect::<DocVec<_>>();
 
         let keyspace = self.group.get_or_create_keyspace(keyspace).await;
+        #[cfg(datacake_verif)]
+        if let Some(delay) = datacake_crdt::verif::jitter_for("store.before_local_apply") {
+            tokio::time::sleep(delay).await;
+        }
         let msg = MultiSet {
             source: CONSISTENCY_SOURCE_ID,
             docs: docs.clone(),
@@ -521,6 +529,10 @@ where
         let last_updated = self.node.clock().get_time().await;
 
         let keyspace = self.group.get_or_create_keyspace(keyspace).await;
+        #[cfg(datacake_verif)]
+        if let Some(delay) = datacake_crdt::verif::jitter_for("store.before_local_apply") {
+            tokio::time::sleep(delay).await;
+        }
         let doc = DocumentMetadata {
             id: doc_id,
             last_updated,
@@ -582,6 +594,10 @@ where
             .collect::<DocVec<_>>();
 
         let keyspace = self.group.get_or_create_keyspace(keyspace).await;
+        #[cfg(datacake_verif)]
+        if let Some(delay) = datacake_crdt::verif::jitter_for("store.before_local_apply") {
+            tokio::time::sleep(delay).await;
+        }
         let msg = MultiDel {
             source: CONSISTENCY_SOURCE_ID,
             docs: docs.clone(),
